@@ -119,4 +119,6 @@ def rule_raw_rows_dispatch(ctx):
     raw_rows_dispatch_table(ctx, "O4.4")
 
 
-RULES = [rule_validate_row, rule_cursor, rule_location_copies, rule_raw_rows_dispatch]
+from .common import rule_module_state  # noqa: E402
+
+RULES = [rule_validate_row, rule_cursor, rule_location_copies, rule_raw_rows_dispatch, rule_module_state]
